@@ -86,6 +86,7 @@ def strategy(tier):
     inst = st.one_of(inner, inner, inner, outer)
     cfg = st.fixed_dictionaries({'width': S['width'], 'ribbon_width': S['width'], 'indent': st.sampled_from([1, 2, 4, 8]),
                                  'sort_dict_keys': st.booleans()})
+    cfg = st.tuples(cfg, S['neutral']).map(lambda p: dict(p[0], **p[1]))
     return st.fixed_dictionaries({'v': inst, 'place': st.sampled_from(PLACES), 'cfg': cfg})
 
 
